@@ -140,7 +140,7 @@ pub fn initial_states(t: Tier, with_big: bool) -> Vec<(Init, bool)> {
     }
     let mut v: Vec<(Init, bool)> = vec![];
     for m in &msgs {
-        for s in [Strategy::Max, Strategy::Plain, Strategy::Chain] {
+        for s in [Strategy::Max, Strategy::Plain, Strategy::Chain, Strategy::RdataOnly] {
             let x = encode(m, s);
             if !v.iter().any(|(i, _)| matches!(i, Init::Packet(p) if *p == x)) {
                 v.push((Init::Packet(x), false));
